@@ -49,6 +49,16 @@ CLAIMED = {
         "level": "Generated radii/volumes over 30 decades x dims 1-3 x scalar/array layouts; every conversion variant compared with textbook formulas and with each other; bounded search, no proof of the symbolic claim.",
         "note": "Trusts numpy/numba arithmetic; tolerances rtol 1e-13 (1e-7 for the numerical derivative).",
     },
+    "C16": {
+        "technique": _T + "; Parseval identity, wave-number oracle, metamorphic relations (scale, roll, flip, transpose, stretch)",
+        "level": "Generated fully periodic grids (dims 1-3, even/odd shapes, anisotropic spacings over 4 decades) x field kinds x transformation bundles; unsmoothed and smoothed variants with requested wave numbers and add_zero.",
+        "note": "numpy.fft trusted; tolerances rtol 1e-9/atol 1e-13 (smoothed 1e-7/1e-12).",
+    },
+    "C17": {
+        "technique": _T + "; metamorphic covariance relations per method, plane-wave oracle for the peak method, definition check for droplet counting",
+        "level": "Generated periodic grids with spacings over 5 decades (and exactly 1), three methods; stretch/scale/shift relations (exact for moment and counting methods, within a Fourier bin for the peak method with an explicit covariant width); plane waves with integer wave vectors under the default smoothing.",
+        "note": "One open known finding (F10, default smoothing width not covariant) is discriminated by re-running the failing call with a covariant width and excluded by signature; ambiguous peaks and NaN results on general fields are skipped and counted.",
+    },
     "C18": {
         "technique": _T + "; differential against the documented binary image, Otsu by definition, exact affine metamorphic relation",
         "level": "Generated fields with exactly representable values on all grid families x five threshold rules x exact affine maps x minimal radii incl. exactly a found radius; byte-for-byte comparison with locate_droplets_in_mask(data > t_oracle), affine invariance, exact radius-filter sub-list; Otsu additionally on dense bimodal samples.",
